@@ -99,6 +99,11 @@ func (w *envelopeWriter) write(env *envelope) *Error {
 		return errorf(CodeUnknown, "write envelope: %w", err)
 	}
 	if _, err := io.Copy(w.writer, env.Data); err != nil {
+		if connectErr, ok := asError(err); ok {
+			// Already coded (for example, because the context was canceled between
+			// writing the prefix and the message).
+			return connectErr
+		}
 		return errorf(CodeUnknown, "write message: %w", err)
 	}
 	return nil
